@@ -89,6 +89,8 @@ CHECKS = {
          "DESIGN.md §5 C07"),
 }
 
+WIDENED = " Since the seeded-change rounds the workload of every check also includes, where the API allows it: sizes around power-of-two and buffer thresholds up to tens of thousands, arguments at the ends of the int range, several comparator styles and element types, inputs that alias each other, sparse as well as dense observation, returned results re-verified after later calls, and a concurrent phase under the race detector for functions that should be pure (DESIGN.md 11.6)."
+
 def built(pid):
     return os.path.exists(os.path.join(ROOT, "harness", "props", pid.lower() + ".go"))
 
@@ -125,7 +127,7 @@ for p in props:
             "evidence_file": "/verif/evidence/%s.json" % pid,
             "replay_cmd_template": "./check %s --replay {path}" % pid,
             "engine": "vcheck",
-            "level_claimed": {"category": "exploration", "text": text, "design_ref": ref},
+            "level_claimed": {"category": "exploration", "text": text + WIDENED, "design_ref": ref + ", 11.6"},
             "level_note": note,
             "technique": tech,
         })
